@@ -260,4 +260,20 @@ def lemmas(tier, seed):
                       if ok else f"sorted() is called with {sorted(kws)}: the ordering argument must be revisited")
     # a side condition of the proof decomposition (where the proved key is used), not a clause of the property: another shape is undecided
     out.append({"name": "submodules_sorts_by_the_proved_key_only", "ok": ok, "on_fail": "undecided", "detail": detail})
+    # .pth additions: the files are consumed in an order that does not depend on the listing (site sorts them by name)
+    try:
+        mi, node, cls = idx.find_function("_griffe.finder:ModuleFinder._extend_from_pth_files")
+    except Exception:  # noqa: BLE001
+        node = None
+    ok2, detail2 = False, "ModuleFinder._extend_from_pth_files not found"
+    if node is not None:
+        loops_ = [n for n in _ast.walk(node) if isinstance(n, _ast.For) and any(isinstance(x, _ast.Attribute) and x.attr == "suffix" for x in _ast.walk(n))
+                  and not any(isinstance(m, _ast.For) and any(isinstance(x, _ast.Attribute) and x.attr == "suffix" for x in _ast.walk(m)) for m in n.body)]
+        detail2 = "no loop that filters the directory entries by suffix"
+        if loops_:
+            it = loops_[0].iter
+            ok2 = isinstance(it, _ast.Call) and isinstance(it.func, _ast.Name) and it.func.id == "sorted" and not it.keywords
+            detail2 = ("the entries of a search path are looked through in sorted order for .pth files (listing order cannot matter; same order as site.addsitedir)"
+                       if ok2 else f"the .pth files are taken in the order of `{_ast.unparse(it)}`: listing-order independence must be re-argued")
+    out.append({"name": "pth_files_are_handled_in_sorted_order", "ok": ok2, "on_fail": "undecided", "detail": detail2})
     return out
